@@ -2793,6 +2793,12 @@ send_evrrul(int whither, echs_const_evstrm_t s)
 		}
 		send_ev(whither, e, this->zon);
 	}
+	if (UNLIKELY(this->rdi >= this->ncch &&
+		     echs_nul_instant_p(this->e.from))) {
+		/* this rule has run its course, writing it out would
+		 * start it all over at whatever DTSTART the event gets */
+		return;
+	}
 	send_rrul(whither, &this->rrul, this->ncch - this->rdi);
 	return;
 }
